@@ -5,7 +5,7 @@ import networkx as nx
 from . import mol as M
 
 
-def gen_stereo_molecule(rng, n_db=None, n_chiral=None, max_extra=6, p_ring=0.0, p_tail=0.0):
+def gen_stereo_molecule(rng, n_db=None, n_chiral=None, max_extra=6, p_ring=0.0, p_tail=0.0, p_unsat=0.0):
     """tree-shaped molecule; -> (g, stereo) with stereo = [dict(a1,a2,l1,l2,kind)], chiral = {atom: 'R'|'S'}"""
     n_db = n_db if n_db is not None else rng.randint(1, 3)
     n_chiral = n_chiral if n_chiral is not None else rng.choice([0, 0, 1, 2])
@@ -40,6 +40,25 @@ def gen_stereo_molecule(rng, n_db=None, n_chiral=None, max_extra=6, p_ring=0.0, 
         else:
             prev = add('C', a2)
     marked = {x for s in stereo for x in (s['a1'], s['a2'], s['l1'], s['l2'])}
+    unsat = set()
+    if p_unsat:
+        # an UNMARKED, unsaturated third substituent on a double-bond atom (the ester carbon of a tiglate, an isopropenyl
+        # carbon): it carries a double bond of its own but no slash mark
+        for s_ in stereo:
+            for anc in (s_['a1'], s_['a2']):
+                if M.free(g, anc) >= 1 and rng.random() < p_unsat:
+                    first_new = len(g)
+                    c = add('C', anc)
+                    if rng.random() < 0.6:
+                        add('O', c, order=2)
+                        if rng.random() < 0.6:
+                            add('C', add('O', c))
+                    else:
+                        add('C', c, order=2)
+                        if rng.random() < 0.5:
+                            add('C', c)
+                    unsat.update(range(first_new, len(g)))
+        marked |= unsat          # left alone by the decoration, ring and stereocentre steps below
     # decorate with extra atoms on unmarked atoms (keeps the marked ligands free of further double bonds)
     for _ in range(rng.randint(0, max_extra)):
         cands = [n for n in g if M.free(g, n) >= 1 and n not in marked and not any(nb in marked for nb in g[n])]
